@@ -147,10 +147,8 @@ func runC15(p *Prog, l *Ledger) {
 						if counter != nil && sameField(fr, *counter) {
 							rearm++
 							v := strip(pa.Resolve(x.Val, step), true)
-							if call, ok := v.(*ssa.Call); ok {
-								if c := p.CallOf(call); c.Static != nil && c15UsesRand(p, c.Static, 2) {
-									rearmFresh = true
-								}
+							if c15DrawsRand(p, pa, step, v, 0) {
+								rearmFresh = true
 							}
 							if k, ok := constInt(v); ok && k == 0 {
 								// counting up from zero: the fresh draw is the jitter stored on the same path
@@ -295,6 +293,37 @@ func runC15(p *Prog, l *Ledger) {
 }
 
 // c15UsesRand: the function (or a callee up to depth) calls math/rand.
+// c15DrawsRand: the value (resolved along the path) is computed from a fresh draw of math/rand: a rand call, or a call
+// of a module function that draws, somewhere among its operands.
+func c15DrawsRand(p *Prog, pa *Path, step int, v ssa.Value, depth int) bool {
+	if v == nil || depth > 12 {
+		return false
+	}
+	v = strip(pa.Resolve(v, step), true)
+	if call, ok := v.(*ssa.Call); ok {
+		c := p.CallOf(call)
+		if strings.HasPrefix(c.Name, "math/rand.") || strings.HasPrefix(c.Name, "(*math/rand.") {
+			return true
+		}
+		if c.Static != nil && p.InModule(c.Static) && c15UsesRand(p, c.Static, 2) {
+			return true
+		}
+	}
+	ins, ok := v.(ssa.Instruction)
+	if !ok {
+		return false
+	}
+	if _, isPhi := v.(*ssa.Phi); isPhi {
+		return false
+	}
+	for _, op := range ins.Operands(nil) {
+		if op != nil && *op != nil && c15DrawsRand(p, pa, step, *op, depth+1) {
+			return true
+		}
+	}
+	return false
+}
+
 func c15UsesRand(p *Prog, f *ssa.Function, depth int) bool {
 	found := false
 	allInstrs(f, func(ins ssa.Instruction) {
@@ -319,10 +348,8 @@ func c15JitterRedrawn(p *Prog, pa *Path, T *types.Named) bool {
 		if st, isS := ins.(*ssa.Store); isS {
 			if fa, isF := st.Addr.(*ssa.FieldAddr); isF {
 				if fr, _, _ := fieldOf(fa); types.Identical(fr.Type, T) {
-					if call, isC := strip(st.Val, false).(*ssa.Call); isC {
-						if c := p.CallOf(call); c.Static != nil && c15UsesRand(p, c.Static, 2) {
-							ok = true
-						}
+					if c15DrawsRand(p, pa, step, st.Val, 0) {
+						ok = true
 					}
 				}
 			}
